@@ -261,7 +261,7 @@ class UnitRegistry:
         Return a list of base unit names that this registry knows about that
         are of equivalent dimensions to *unit_object*.
         """
-        equiv = [k for k, v in self.lut.items() if v[1] is unit_object.dimensions]
+        equiv = [k for k, v in self.lut.items() if v[1] == unit_object.dimensions]
         equiv = sorted(set(equiv))
         return equiv
 
